@@ -1,2 +1,155 @@
-// Package c01: implementation-side ops, generators and oracles for property C01.
+// Package c01: protect-then-reveal returns the original bytes for the owning client (C01).
 package c01
+
+import (
+	"bytes"
+	"fmt"
+
+	"verifharness/internal/core"
+	env "verifharness/internal/envops"
+)
+
+func init() { core.RegisterProp("C01", run) }
+
+func hexOf(out string) ([]byte, bool) {
+	if len(out) >= 4 && out[:3] == "ok " {
+		f := out[3:]
+		for i := 0; i < len(f); i++ {
+			if f[i] == ' ' {
+				f = f[:i]
+				break
+			}
+		}
+		return core.UnHex(f), true
+	}
+	return nil, false
+}
+
+func run(r *core.Run) {
+	r.Rule = "plaintexts of boundary and random lengths from six content classes (random, tag runs, fake headers, embedded envelopes) × both envelopes × key histories of length 1–4 × entry points (library, registry handler, column detector with/without the bare-envelope wrapper) × junk prefixes/suffixes; non-trivial = a protect call that produced an envelope; distinct by (entry point, kind, plaintext)"
+	rd := r.Rand
+	lens := append([]int{}, env.Lens...)
+	for i := 0; i < r.N(40, 1500); i++ {
+		lens = append(lens, 1+rd.Intn(600))
+	}
+	if r.Thorough() {
+		for l := 1; l <= 400; l++ {
+			lens = append(lens, l)
+		}
+		lens = append(lens, 4096, 65535, 65536, 70000)
+	}
+	colA, colB := env.CollidingKeys(rd, nil)
+	for idx, l := range lens {
+		m, class := env.Plain(rd, l)
+		kv := env.NewKV(rd, 1+rd.Intn(4), 1+rd.Intn(4))
+		if idx%7 == 3 { // an older key with a colliding 2-byte id sits in front of the right one
+			kv.Syms = [][]byte{colA, colB}
+			kv.Sym = colA
+			if rd.Bool() {
+				kv.Syms = [][]byte{colB, colA}
+			}
+		}
+		ctx := rd.Bytes(rd.Intn(3) * rd.Intn(9))
+		// the writer may have used any key of the history (value written before a rotation)
+		wi := rd.Intn(len(kv.Privs))
+		wpub := env.PubOf(kv.Privs[wi])
+		wsym := kv.Syms[rd.Intn(len(kv.Syms))]
+
+		// --- library level: AcraStruct
+		r.Begin(fmt.Sprintf("lib-struct-%d-%x", l, m[:min(8, len(m))]), true, "entry:library", "kind:struct", "class:"+class)
+		s, ok := hexOf(r.Do(fmt.Sprintf("C01.struct.create %s %s %s %s", core.Hex(wpub), core.Hex(ctx), core.Hex(m), core.Hex(env.Rnd(rd)))))
+		if r.Check(ok, "struct-create-failed", "CreateAcrastruct failed on a non-empty plaintext") {
+			r.Do("C01.struct.validate " + core.Hex(s))
+			suffix := env.Junk(rd, 20)
+			ex := r.Do("C01.struct.extract " + core.Hex(append(append([]byte{}, s...), suffix...)))
+			r.Check(ex == fmt.Sprintf("ok %d %s", len(s), core.Hex(s)), "struct-extract", "ExtractAcraStruct(struct++suffix) does not return the struct")
+			back, ok := hexOf(r.Do(fmt.Sprintf("C01.struct.decrypt %s %s %s", env.List(kv.Privs), core.Hex(ctx), core.Hex(s))))
+			r.Check(ok && bytes.Equal(back, m), "struct-roundtrip", fmt.Sprintf("AcraStruct round trip lost the plaintext (len %d, class %s, key #%d of %d)", l, class, wi, len(kv.Privs)))
+		}
+		// --- library level: AcraBlock
+		r.Begin(fmt.Sprintf("lib-block-%d-%x", l, m[:min(8, len(m))]), true, "entry:library", "kind:block", "class:"+class)
+		b, ok := hexOf(r.Do(fmt.Sprintf("C01.block.create %s %s %s %s", core.Hex(wsym), core.Hex(ctx), core.Hex(m), core.Hex(env.Rnd(rd)))))
+		if r.Check(ok, "block-create-failed", "CreateAcraBlock failed on a non-empty plaintext") {
+			suffix := env.Junk(rd, 20)
+			ex := r.Do("C01.block.extract " + core.Hex(append(append([]byte{}, b...), suffix...)))
+			r.Check(ex == fmt.Sprintf("ok %d %s", len(b), core.Hex(b)), "block-extract", "ExtractAcraBlockFromData(block++suffix) does not return the block")
+			back, ok := hexOf(r.Do(fmt.Sprintf("C01.block.decrypt %s %s %s", env.List(kv.Syms), core.Hex(ctx), core.Hex(b))))
+			r.Check(ok && bytes.Equal(back, m), "block-roundtrip", fmt.Sprintf("AcraBlock round trip lost the plaintext (len %d, class %s, %d keys)", l, class, len(kv.Syms)))
+		}
+		// --- registry handler + detectors, both kinds
+		for _, kind := range []string{"struct", "block"} {
+			r.Begin(fmt.Sprintf("handler-%s-%d-%x", kind, l, m[:min(8, len(m))]), true, "entry:handler", "kind:"+kind, "class:"+class)
+			// the value may have been written under an older key: make that key current for the writer only
+			wkv := *kv
+			wkv.Pub, wkv.Sym = wpub, wsym
+			p, ok := env.Protect(r, kind, &wkv, m)
+			if !r.Check(ok, "protect-failed", "protect failed on a non-empty plaintext") {
+				continue
+			}
+			if bytes.Equal(p, m) {
+				r.Tag("protect:passthrough") // the plaintext itself looked like a protected value
+				continue
+			}
+			back, ok := hexOf(r.Do(fmt.Sprintf("C01.handler.reveal %s %s", kv.Tokens(), core.Hex(p))))
+			r.Check(ok && bytes.Equal(back, m), "reveal-protect", fmt.Sprintf("reveal(protect(m)) != m (kind %s, len %d, class %s)", kind, l, class))
+			// protected input is passed through unchanged, never wrapped twice
+			again, ok := env.Protect(r, kind, &wkv, p)
+			r.Check(ok && bytes.Equal(again, p), "protect-idempotent", "protect(protect(m)) != protect(m)")
+			other := "block"
+			if kind == "block" {
+				other = "struct"
+			}
+			again2, ok := env.Protect(r, other, &wkv, p)
+			r.Check(ok && bytes.Equal(again2, p), "protect-idempotent-cross", "a protected value was wrapped a second time by the other envelope kind")
+			r.Do("C01.handler.match " + core.Hex(p))
+			r.Do("C01.container.deser " + core.Hex(p))
+			// transparent column processing: embedded among junk
+			pre, suf := env.Junk(rd, 40), env.Junk(rd, 40)
+			col := append(append(append([]byte{}, pre...), p...), suf...)
+			want := append(append(append([]byte{}, pre...), m...), suf...)
+			for _, op := range []string{"C01.detector.oncolumn", "C01.detector.compat"} {
+				r.Begin(fmt.Sprintf("%s-%s-%d-%x-%d-%d", op, kind, l, m[:min(8, len(m))], len(pre), len(suf)), true, "entry:"+op, "kind:"+kind)
+				got, ok := hexOf(r.Do(fmt.Sprintf("%s %s %s", op, kv.Tokens(), core.Hex(col))))
+				r.Check(ok && bytes.Equal(got, want), "column-embedded", fmt.Sprintf("%s: pre(%d)++protect(m)++suf(%d) did not come back as pre++m++suf (kind %s, len %d, class %s)", op, len(pre), len(suf), kind, l, class))
+			}
+			// bare (old-style) envelope inside a column, only the compat wrapper reveals it
+			if rd.Chance(50) {
+				inner, _, _ := deser(r, p)
+				if inner != nil {
+					pre, suf := env.Junk(rd, 20), env.Junk(rd, 20)
+					if kind == "struct" {
+						suf = nil // a bare AcraStruct must reach the end of the buffer to be recognised by length
+					}
+					col := append(append(append([]byte{}, pre...), inner...), suf...)
+					want := append(append(append([]byte{}, pre...), m...), suf...)
+					r.Begin(fmt.Sprintf("compat-bare-%s-%d-%x", kind, l, m[:min(8, len(m))]), true, "entry:compat-bare", "kind:"+kind)
+					got, ok := hexOf(r.Do(fmt.Sprintf("C01.detector.compat %s %s", kv.Tokens(), core.Hex(col))))
+					if !containsTag(pre) && !containsTag(suf) {
+						r.Check(ok && bytes.Equal(got, want), "column-bare", fmt.Sprintf("bare %s envelope in a column was not revealed by the compatibility wrapper (len %d)", kind, l))
+					}
+				}
+			}
+		}
+	}
+	// empty plaintext cannot be protected: error, never a value
+	r.Begin("empty-plaintext", true, "class:empty")
+	kv := env.NewKV(rd, 1, 1)
+	for _, kind := range []string{"struct", "block"} {
+		out := r.Do(fmt.Sprintf("C01.handler.protect %s %s - %s", kind, kv.Tokens(), core.Hex(env.Rnd(rd))))
+		r.Check(out == core.Err, "protect-empty", "protect of the empty plaintext did not fail: "+out)
+	}
+}
+
+func deser(r *core.Run, p []byte) ([]byte, int, bool) {
+	out := r.Do("C01.container.deser " + core.Hex(p))
+	var h string
+	var id int
+	if _, err := fmt.Sscanf(out, "ok %s %d", &h, &id); err != nil {
+		return nil, 0, false
+	}
+	return core.UnHex(h), id, true
+}
+
+func containsTag(b []byte) bool {
+	return bytes.Contains(b, []byte("%%%")) || bytes.Contains(b, []byte("\"\"\"\""))
+}
